@@ -177,6 +177,42 @@ theorem perplexity_exponent_rat {σ : Type} (M : LM σ Rat) (hc : M.Coherent) (s
   rw [this.2.2 h, ← this.1]
   rfl
 
+/-! ## bin/query -/
+
+/-- **query_eq**: for a one-line, NUL-free sentence the Python module returns what `bin/query` prints:
+per word the same `FullScoreReturn` (and, for the words of the sentence, the same OOV flag), and the same total —
+`query` ↔ bos=eos=True, `query -n` ↔ bos=eos=False. -/
+theorem query_eq {σ α : Type} (M : LM σ α) (hc : M.Coherent) (s : Bytes) (h0 : 0 ∉ s) (h10 : 10 ∉ s) :
+    M.queryFull kSpaces s false = M.fullScores s false false ∧
+    (M.queryFull kSpaces s true).map (·.1) = (M.fullScores s true true).map (·.1) ∧
+    (M.queryFull kSpaces s true).take (pySplit s).length = M.fullScores s true false ∧
+    M.queryTotal kSpaces s true = M.pyScore kSpaces s true true ∧
+    M.queryTotal kSpaces s false = M.pyScore kSpaces s false false := by
+  have hw : (queryWords (isDelim kSpaces) s).map M.index = M.slowIds s := by
+    rw [queryWords_eq_spec _ s h10, splitSpec_congr _ _ table_agree, ← pySplit_spec]
+    unfold LM.slowIds
+    rw [indexC_on_tokens M s h0]
+  have e1 : M.queryFull kSpaces s false = M.fullScores s false false := by
+    unfold LM.queryFull LM.fullScores; rw [hw]; simp
+  have e2 : (M.queryFull kSpaces s true).map (·.1) = (M.fullScores s true true).map (·.1) := by
+    unfold LM.queryFull LM.fullScores; rw [hw]; simp
+  refine ⟨e1, e2, ?_, ?_, ?_⟩
+  · unfold LM.queryFull LM.fullScores
+    rw [hw]
+    have hl : (M.foldFull (M.start true) (M.slowIds s)).1.length = (pySplit s).length := by
+      rw [LM.foldFull_length]; simp [LM.slowIds]
+    simp [← hl]
+  · rw [pyScore_sum M hc s h0]
+    unfold LM.queryTotal
+    have : (M.queryFull kSpaces s true).map (·.1.prob) = (M.fullScores s true true).map (·.1.prob) := by
+      have := congrArg (List.map (·.prob)) e2
+      rw [List.map_map, List.map_map] at this
+      exact this
+    rw [this]
+  · rw [pyScore_sum M hc s h0]
+    unfold LM.queryTotal
+    rw [e1]
+
 /-! ## the facade -/
 
 section facade
